@@ -11,6 +11,19 @@ def objs_map(w, pairs):
     return out
 
 
+def row_ok(w, r, pd, i, size):
+    """the row designates exactly the stored form of object i: the recorded size is the content length; uncompressed:
+    the range is the content and length == size; compressed: the range is a complete stream inflating to the content"""
+    if r['size'] != size:
+        return False
+    stored = pd[r['offset'] : r['offset'] + r['length']]
+    if r['compressed']:
+        return w.inflates_to(stored, i, size)
+    if r['length'] != size:
+        return False
+    return stored == w.content(i, size)
+
+
 def inv_ok(img, w, objs, exact=True):
     """C03 + the key->bytes abstraction, evaluated library-free on an image (rows + byte slices only).
 
@@ -46,11 +59,7 @@ def inv_ok(img, w, objs, exact=True):
                     return False
                 if r['offset'] + r['length'] > len(pd):
                     return False
-                if r['compressed']:
-                    return False
-                if r['length'] != size or r['size'] != size:
-                    return False
-                if not (pd[r['offset'] : r['offset'] + r['length']] == want):
+                if not row_ok(w, r, pd, i, size):
                     return False
                 found = True
         if not found:
@@ -79,9 +88,7 @@ def visible_complete(img, w, objs):
                 pd = img.pack_data(r['pack_id'])
                 if pd is None or r['offset'] + r['length'] > len(pd):
                     return False
-                if r['length'] != size or r['size'] != size or r['compressed']:
-                    return False
-                if not (pd[r['offset'] : r['offset'] + r['length']] == want):
+                if not row_ok(w, r, pd, i, size):
                     return False
     return True
 
